@@ -4,6 +4,8 @@ mod c02;
 mod c09;
 mod c06;
 mod c15;
+mod c03;
+mod c13;
 
 fn main() {
     std::panic::set_hook(Box::new(|_| {}));
@@ -28,6 +30,9 @@ fn main() {
         "c06-record" => c06::record(rest),
         "c15-replay" => c15::replay(rest),
         "c15-record" => c15::record(rest),
+        "c03-replay" => c03::replay(rest),
+        "c03-record" => c03::record(rest),
+        "c13-threads" => c13::threads(rest),
         x => {
             eprintln!("unknown subcommand {}", x);
             std::process::exit(2);
